@@ -555,6 +555,9 @@ def index_form_cases(max_size=4):
             for ids in itertools.permutations(range(size), k):
                 forms.append("q[{%s}]" % ", ".join(map(str, ids)))
         forms += ["q[{0, 0}]", "q[{%d}]" % size]
+        # indices that are closed expressions (folded by the unroller; inside the whole-program judgement through ParamProofs.ceval)
+        forms += ["q[%d + 1]" % (size - 2), "q[2 * %d - %d]" % (size, size + 1), "q[-(-%d)]" % (size - 1), "q[%d %% %d]" % (size + 1, size), "q[1 << %d]" % (size - 1),
+                  "q[true]", "q[false]", "q[!false]", "q[%d - %d]" % (size, size + 1), "q[%d / 2]" % size, "q[2 ** 1]", "q[7 & %d]" % size]
         for f in forms:
             out.append(H3 + decl + "h %s;\n" % f)
             out.append(H3 + decl + "let a = %s;\nx a;\nbarrier a;\n" % f)
